@@ -72,6 +72,12 @@ ASSUMPTIONS = [
     "apart than separation + 2*search_range + diameter, farther than radius + search_range + 3 "
     "from the border, displacement <= search_range - 1.5 px, noise mass below minmass)",
     "trajectories are compared as partitions (label values are unspecified)",
+    "FLSTEP (model of one next_level): the state is rebuilt from the implementation's own labelled "
+    "levels; the relocation oracle is the table of this run's get_relocate_candidates return values "
+    "keyed by the SET of source positions; steps beyond the neighbour cap / sub-net size limit are "
+    "skipped; links are compared only when the optimum of every sub-net is unique (driver flag "
+    "tied), positions / added features / sub-nets with a shortage always; masses cross the protocol "
+    "rounded (they do not influence the labelling)",
 ]
 MIN_NONTRIVIAL = 20
 
